@@ -89,6 +89,14 @@ def findPart : List SConn → Nat → Nat → Except Err (SConn × Nat)
 def Inner.bitAt (pin : Inner) (k : Int) : Int :=
   if pin.step < 0 then pin.top - 1 + k * pin.step else pin.bot + k * pin.step
 
+/-- One level of splicing: the parts of entries that are concatenations are spliced in
+    (`_resolve_slice`, and the loop of `_resolve_concat`). -/
+def splice : List SConn → List SConn
+  | [] => []
+  | .concat ps :: rest => ps ++ splice rest
+  | .sig n w :: rest => .sig n w :: splice rest
+  | .slice p i :: rest => .slice p i :: splice rest
+
 mutual
 /-- `_list_slice(parent[idx])` -/
 def listSlice : Nat → SConn → Index → Except Err (List SConn)
@@ -134,7 +142,7 @@ def resolveSliceable : Nat → SConn → Except Err SConn
       match ls with
       | [] => .error (.reject "error resolving slice")
       | [x] => .ok x
-      | _ => .ok (.concat ls)
+      | _ => .ok (.concat (splice ls))
   | fuel + 1, .concat ps =>
       if ps.isEmpty then .error (.reject "concatenation with no parts") else do
         let parts ← resolveParts fuel ps
